@@ -57,6 +57,7 @@ func (f *Fetcher) exchangeKeys(ctx context.Context) error {
 			}
 		}()
 
+		f.data = Data{}
 		err = exchangeDataQUIC(ctx, f.Log, conn, &f.data)
 		if err != nil {
 			return err
@@ -102,6 +103,7 @@ func (f *Fetcher) FetchData(ctx context.Context) (Data, error) {
 	if len(f.data.Cookie) == 0 {
 		err := f.exchangeKeys(ctx)
 		if err != nil {
+			f.data = Data{}
 			return Data{}, err
 		}
 	}
